@@ -138,6 +138,8 @@ def hom_invT(M):
 
 
 HOMS = {"kron2": hom_kron2, "block": hom_block, "invT": hom_invT}
+INHERITS_RELATIONS = ("copy", "conjugate", "dual", "compose", "astype", "gln_adjoint", "sln_adjoint",
+                      "wrap_projective", "wrap_hyperbolic")
 
 
 def sym2_char(tr1, tr2):
@@ -668,7 +670,9 @@ class Engine:
             # compared by dimension and character
             nh.gens = {g: M.copy() for g, M in h.gens.items()}
         nh.order = list(h.order) if how != "subgroup" else SIMPLE[:len(op["words"])]
-        nh.relations = []
+        # homomorphic images of the same group keep the parent's relations (they still hold);
+        # tensor product, symmetric square and subgroup start without relations
+        nh.relations = list(h.relations) if how in INHERITS_RELATIONS else []
         world.handles[op["new"]] = nh
         world.stats["derive." + how] += 1
         return "ok"
@@ -864,16 +868,24 @@ class Engine:
                 stale = True        # a generator was re-assigned since: no longer a relation
         if stale:
             world.stats["probe.relations_stale_after_reassign"] += 1
-        if accessor == "cocycle" and h.relations and not stale:
+        if accessor == "cocycle" and not stale:
+            # every relation the simulator ever gave this handle (or its homomorphic ancestors) holds
+            # in the model, so whatever relations the object carries, its cocycle matrix must
+            # annihilate the coboundary matrix.  Without relations cocycle_matrix() has nothing to
+            # concatenate and may raise; that is not asserted.
             try:
                 C = np.asarray(h.real.cocycle_matrix(), dtype=np.complex128)
             except Exception as e:
-                return ("R.cocycle.raised", "cocycle_matrix() raised %r" % (e,))
-            bound = max(h.value(list(r))[1] for r in h.relations)
-            if C.shape != (n * len(h.relations), n * k) or \
-                    not np.all(np.abs(C @ cob) <= 1e-10 * (1 + kappa) * 40 * bound * max(1.0, bound)):
-                return ("R.cocycle", "cocycle matrix of the satisfied relations %r does not annihilate the "
-                        "coboundary matrix" % (h.relations,))
+                if h.relations:
+                    return ("R.cocycle.raised", "cocycle_matrix() raised %r" % (e,))
+                return None
+            bound = max([1.0] + [h.value(list(r))[1] for r in h.relations])
+            if h.relations and C.shape != (n * len(h.relations), n * k):
+                return ("R.cocycle", "cocycle matrix has shape %r for relations %r" % (C.shape, h.relations))
+            if C.ndim == 2 and C.shape[0] > 0 and C.shape[1] == n * k and \
+                    not np.all(np.abs(C @ cob) <= 1e-10 * (1 + kappa) * 40 * bound * max(1.0, bound) + 1e-9):
+                return ("R.cocycle", "the cocycle matrix (relations given: %r; relations the object carries: %r) "
+                        "does not annihilate the coboundary matrix" % (h.relations, _safe_rel(h.real)))
             world.stats["probe.cocycle_checked"] += 1
         return None
 
@@ -890,6 +902,13 @@ class Engine:
                     o["probe"] = op["probe"][:i] + [w[:-1]] + op["probe"][i + 1:]
                     out.append(o)
         return out
+
+
+def _safe_rel(rep):
+    try:
+        return list(rep.relations)
+    except Exception:
+        return "?"
 
 
 def _reduce(w):
